@@ -48,6 +48,7 @@ UNITS = ['', 'px', 'em', '%', 'pt', 's', 'deg']
 MEDIA_TYPES = ['screen', 'print', 'all', 'tv', 'handheld']
 MEDIA_FEATURES = ['min-width', 'max-width', 'min-height', 'max-height', 'orientation', 'color']
 PSEUDO = [':hover', ':focus', ':first-child', ':active', ':visited', ':last-child']
+PSEUDO_FN = [':not(.x)', ':nth-child(2n+1)', ':lang(en)', ':not(:first-child)', ':nth-of-type(3)', ':not([href])', ':nth-last-child(-n+2)']
 PSEUDO2 = ['::before', '::after', '::first-line']
 ATTRS = ['[href]', '[type=text]', '[type="text"]', '[data-x="1"]', '[lang|=en]', '[title~=hello]', '[title="x,y"]', '[title="read > more"]',
          '[data-k="a + b"]', "[alt='p ~ q']", '[data-s="semi;colon"]', '[data-b="{}"]', '[rel="a  b"]', '[href$=".pdf"]', '[data-c=", "]', '[width="100%"]', '[data-f="%s %(ws)s"]', '[data-d="$$"]', '[data-q="?x?"]', '[data-m="a,$$b"]']
@@ -97,7 +98,7 @@ class Gen:
             elif k < 0.7:
                 items.append(('id', '#' + r.choice(IDS)))
             elif k < 0.85:
-                items.append(('pseudo', r.choice(PSEUDO)))
+                items.append(('pseudo', r.choice(PSEUDO + PSEUDO_FN) if 'pseudofn' in self.f else r.choice(PSEUDO)))
             elif k < 0.92 and 'pseudo2' in self.f:
                 items.append(('pseudo2', r.choice(PSEUDO2)))
             elif 'attr' in self.f:
